@@ -204,6 +204,7 @@ func rulesC20(c *Ctx) {
 	syntheticC20(c, cn)
 	c.Rule("C20.parens", "ColumnNames looks through parentheses around a field's expression when it tests for a top()/bottom() call, as Field.Name does when it names the column: `(top(value, host, 2))` is the same selector and yields the same extra tag columns")
 	suffixC20(c, cn)
+	skipFilledC20(c, cn)
 	stripperTotalRule(c, "C20.parens")
 	parenTransparencyRule(c, "C20.parens", "(*SelectStatement).ColumnNames: selector call inside parentheses", p.SSAFunc(cn), "*Call", "the field expression is tested for *Call directly: for `SELECT (top(value, host, 2))` the tag argument gets no column, though Field.Name names the field `top` all the same")
 }
@@ -235,6 +236,15 @@ func syntheticC20(c *Ctx, cn *types.Func) {
 							bad = true
 							c.Bad("C20.synthetic", key, st.Pos(), "the created column is given an alias: two top()/bottom() calls naming the same tag, or a tag named like another column, now yield duplicate column names")
 						}
+					}
+				}
+			}
+			// a whole-struct store copies another Field, alias included
+			for _, ref := range *a.Referrers() {
+				if st, ok := ref.(*ssa.Store); ok && st.Addr == ssa.Value(a) {
+					if _, isLoad := st.Val.(*ssa.UnOp); isLoad {
+						bad = true
+						c.Bad("C20.synthetic", key, st.Pos(), "the created column starts as a copy of another Field (the call's own), alias included: `top(v, host, 2) AS t` names the tag column t as well")
 					}
 				}
 			}
